@@ -2,7 +2,7 @@
     Each theorem is closed by [exact] and followed by [Print Assumptions]. *)
 From Coq Require Import Reals List Bool Arith Sorting.Sorted.
 From Celer Require Import Base.Num Base.NumR Base.NumF Base.Vec3 C12.Solver C12.Surfaces C12.Transforms
-  C03.LogicWalk C03.NavModel C03.LogicWalkProofs C03.NavProofs C03.NavWitness.
+  C03.LogicWalk C03.NavModel C03.LogicWalkProofs C03.QuadricSign C03.NavProofs C03.NavWitness.
 Import ListNotations.
 Local Open Scope R_scope.
 
@@ -50,6 +50,34 @@ Theorem C03_background_enter_first :
             /\ forall j f' d', (j < k)%nat -> nth_error xs j = Some (f', d') -> enter f' d' = None.
 Proof. exact background_enter_first. Qed.
 Print Assumptions C03_background_enter_first.
+
+(** the reported step is exactly the maximal initial segment of the ray inside the
+    current volume (single volume; hypotheses: non-tangent ray = strictly
+    sorted positive crossings, senses flip once per crossing) *)
+Theorem C03_nav_refines_locate_partial :
+  forall (inside : list bool -> bool) (s0 : list bool) (xs : list (nat * R)) (sense_at : R -> list bool),
+  StronglySorted (fun a b => snd a < snd b) xs ->
+  (forall f d, In (f, d) xs -> 0 < d) ->
+  inside s0 = true ->
+  (forall t, 0 <= t -> (forall f d, In (f, d) xs -> d <> t) -> sense_at t = senses_upto t s0 xs) ->
+  (forall f b d, complex_walk inside s0 xs = Some (f, b, d) ->
+     (forall t, 0 <= t < d -> (forall f' d', In (f', d') xs -> d' <> t) -> inside (sense_at t) = true)
+     /\ (forall t, d < t -> (forall f' d', In (f', d') xs -> d < d' -> t < d') -> inside (sense_at t) = false))
+  /\ (complex_walk inside s0 xs = None ->
+      forall t, 0 <= t -> (forall f' d', In (f', d') xs -> d' <> t) -> inside (sense_at t) = true).
+Proof. exact nav_refines_locate_partial. Qed.
+Print Assumptions C03_nav_refines_locate_partial.
+
+Theorem C03_quadric_sign_between_roots :
+  forall a h c t : R,
+  a <> 0 -> 0 < h * h - a * c ->
+  let D := sqrt (h * h - a * c) in
+  let q := a * t * t + 2 * h * t + c in
+  (a * q < 0 <-> - D < a * t + h < D)
+  /\ (q = 0 <-> (a * t + h = D \/ a * t + h = - D))
+  /\ (0 < a * q <-> (a * t + h < - D \/ D < a * t + h)).
+Proof. exact quadric_sign_between_roots. Qed.
+Print Assumptions C03_quadric_sign_between_roots.
 
 (** ** L2: minimum over levels, shallowest level wins ties *)
 
